@@ -27,6 +27,13 @@ func TestMain(m *testing.M) {
 	run.Assume("a binding is fed to the reference table only by an observed ACK / Reply carrying the value; its expiry is the reply's own lease time / valid lifetime; an OFFER / Advertise counts as outstanding until ACK, NAK, RELEASE, DECLINE or one lease time")
 	run.Assume("expiry is judged at the handlers and the v4 cleanup loop (run for real on the virtual clock); a reclaim mechanism that lived only in goroutines started by Start() of the DHCPv6 server would not be observed (none exists)")
 	run.Assume("DHCPv6 handlers are driven sequentially (receiveLoop is single-threaded); only DHCPv4 handlers are called concurrently (server4 dispatches one goroutine per packet)")
+	if childMode() {
+		// the concurrent parts run in a child process (a crash of the code under test must not take the
+		// verdict with it); the child only reports to its parent
+		code := m.Run()
+		writeChildReport()
+		os.Exit(code)
+	}
 	code := m.Run()
 	run.JudgeRaces(anchored)
 	ec := run.Finish()
